@@ -59,8 +59,8 @@ class C06(Property):
         # input untouched
         ctx.require(T.snapshot(etc) == snap, "input-modified", "the time course passed in was modified")
         # partition: multiset of (time, class, bytes)
-        got = Counter((float(t), type(d).__name__, d.data.tobytes()) for tr in tracks for t, d in zip(tr.times, tr.droplets))
-        exp = Counter((float(t), type(d).__name__, d.data.tobytes()) for t, e in zip(etc.times, etc.emulsions) for d in e)
+        got = Counter((T.tkey(t), type(d).__name__, d.data.tobytes()) for tr in tracks for t, d in zip(tr.times, tr.droplets))
+        exp = Counter((T.tkey(t), type(d).__name__, d.data.tobytes()) for t, e in zip(etc.times, etc.emulsions) for d in e)
         if got != exp:
             missing = sum((exp - got).values())
             extra = sum((got - exp).values())
@@ -74,14 +74,14 @@ class C06(Property):
         tol = 1e-9 * spec["site_spacing"]
         if not any(T.frame_has_overlap(f, geom, tol) for f in frames):
             ctx.cls("no-within-frame-overlap")
-            ftimes = [float(t) for t in etc.times]
+            ftimes = [T.tkey(t) for t in etc.times]
             for tr in tracks:
-                tt = [float(t) for t in tr.times]
+                tt = [T.tkey(t) for t in tr.times]
                 ok = all(b > a for a, b in zip(tt, tt[1:]))
-                ctx.require(ok, f"times-not-increasing:{spec['method']}", f"track times {tt}")
+                ctx.require(ok, f"times-not-increasing:{spec['method']}", f"track times {[float(x) for x in tt]}")
                 if ok and tt and tt[0] in ftimes:
                     i0 = ftimes.index(tt[0])
-                    ctx.require(ftimes[i0 : i0 + len(tt)] == tt, f"gap-in-track:{spec['method']}", f"track times {tt} are not a run of the frame times {ftimes}")
+                    ctx.require(ftimes[i0 : i0 + len(tt)] == tt, f"gap-in-track:{spec['method']}", f"track times {[float(x) for x in tt]} are not a run of the frame times {[float(x) for x in ftimes]}")
         else:
             ctx.cls("within-frame-overlap")
 
